@@ -28,4 +28,4 @@ Extraction "model.ml"
   DrainMacro.macro_step DrainMacro.add_thread DrainMacro.enabled DrainMacro.dstate0 DrainMacro.pc_at
   Striped.sstep Striped.sadd Striped.sstate0 Striped.tables Striped.cur Striped.busy Striped.rings Striped.sths Striped.spc_ Striped.idx Striped.elem Striped.attempt Striped.snap
   HashMapConc.hstep HashMapConc.hinit HashMapConc.len_of HashMapConc.bidx_of HashMapConc.lens HashMapConc.stores HashMapConc.lk HashMapConc.hcur HashMapConc.resizing HashMapConc.spec HashMapConc.hths
-  HashMapConc.hpc_ HashMapConc.hkey HashMapConc.hsnap HashMapConc.hbi HashMapConc.hcop HashMapConc.hres HashMapConc.happ HashMapConc.hretry HashMapConc.hyield.
+  HashMapConc.hpc_ HashMapConc.hkey HashMapConc.hsnap HashMapConc.hbi HashMapConc.hcop HashMapConc.hres HashMapConc.happ HashMapConc.hretry HashMapConc.hyield HashMapConc.cnt.
